@@ -103,6 +103,18 @@ pub fn exec(sim: &mut Sim, ev: &str, a: &Value) -> Result<(), String> {
             sim.connect(s(a, "c"));
         }
         "Disconnect" => sim.disconnect(s(a, "c")),
+        "LoseToConnecting" => {
+            let ci = sim.ci(s(a, "c"));
+            if sim.clients[ci].entity.is_none() {
+                return Err("not connected".into());
+            }
+            sim.lose_to_connecting(s(a, "c"))
+        }
+        "GiveUp" => {
+            if !sim.give_up(s(a, "c")) {
+                return Err("GiveUp not enabled".into());
+            }
+        }
         "Authorize" => {
             if !sim.authorize(s(a, "c")) {
                 return Err("Authorize not enabled".into());
@@ -289,6 +301,8 @@ pub struct Profile {
     pub pre: bool,
     /// padding bytes per component (per slot: pad + 7 * slot index), to force splitting of mutate messages
     pub pad: usize,
+    /// virtual time: some server frames advance time by this many ms (0 = time stands still)
+    pub dt: u64,
     pub settle: usize,
     /// avoid histories matching open known-finding signatures
     pub clean: bool,
@@ -296,7 +310,7 @@ pub struct Profile {
 
 impl Default for Profile {
     fn default() -> Self {
-        Self { steps: 40, comps: vec!["A", "B"], vis: false, rel: false, sess: false, marks: true, events: false, pre: false, pad: 0, settle: 4, clean: true }
+        Self { steps: 40, comps: vec!["A", "B"], vis: false, rel: false, sess: false, marks: true, events: false, pre: false, pad: 0, dt: 0, settle: 4, clean: true }
     }
 }
 
@@ -488,8 +502,8 @@ pub fn random_run<W: Write>(tr: &mut Trace<W>, cfg: Cfg, prof: &Profile, seed: u
                 let p = rng.pick(&ents).clone();
                 if rng.chance(2, 3) { ("Relate", json!({"e": e, "p": p})) } else { ("Unrelate", json!({"e": e})) }
             }
-            51..=58 => ("SrvFrame", json!({"tick": false, "dt": 0})),
-            59..=72 => ("SrvFrame", json!({"tick": true, "dt": 0})),
+            51..=58 => ("SrvFrame", json!({"tick": false, "dt": if rng.chance(1, 2) { prof.dt } else { 0 }})),
+            59..=72 => ("SrvFrame", json!({"tick": true, "dt": if rng.chance(1, 2) { prof.dt } else { 0 }})),
             73..=78 => ("DeliverUpd", json!({"c": c})),
             79..=84 => {
                 let n = sim.channel_len(&c, "s2c", CH_MUT);
@@ -522,7 +536,13 @@ pub fn random_run<W: Write>(tr: &mut Trace<W>, cfg: Cfg, prof: &Profile, seed: u
                     continue;
                 }
                 let ci = sim.ci(&c);
-                if sim.clients[ci].entity.is_some() {
+                if sim.clients[ci].entity.is_some() && rng.chance(1, 3) {
+                    // the session ends through the Connecting state: Connected -> Connecting -> Disconnected
+                    tr.step(&mut sim, "LoseToConnecting", json!({"c": c}));
+                    tr.step(&mut sim, "CliFrame", json!({"c": c, "dt": 0}));
+                    tr.step(&mut sim, "GiveUp", json!({"c": c}));
+                    tr.step(&mut sim, "CliFrame", json!({"c": c, "dt": 0}));
+                } else if sim.clients[ci].entity.is_some() {
                     tr.step(&mut sim, "Disconnect", json!({"c": c}));
                     tr.step(&mut sim, "CliFrame", json!({"c": c, "dt": 0}));
                     if rng.chance(1, 2) {
